@@ -718,3 +718,13 @@ mod test {
         );
     }
 }
+
+#[cfg(feature = "verif-hooks")]
+pub(crate) mod verif_local {
+    use super::*;
+
+    /// `is_skip` on one meta item.
+    pub(crate) fn is_skip_meta(meta_item: &MetaItem) -> bool {
+        is_skip(meta_item)
+    }
+}
